@@ -68,6 +68,16 @@ def rand_mark(rng, schema):
     return Mark(t, attrs)
 
 
+def meq(a, b):
+    """equality of two marks as the documentation defines it — same type, equal attributes — decided here, not by the
+    library's own Mark.eq"""
+    return a.type.name == b.type.name and json.dumps(a.attrs, sort_keys=True, default=str) == json.dumps(b.attrs, sort_keys=True, default=str)
+
+
+def msame(xs, ys):
+    return len(xs) == len(ys) and all(meq(a, b) for a, b in zip(xs, ys))
+
+
 def canonical_violation(schema, ms):
     """None if ms is sorted by rank, has no two equal marks and no mark excluding another"""
     for a, b in zip(ms, ms[1:]):
@@ -75,7 +85,7 @@ def canonical_violation(schema, ms):
             return "not ordered by the schema's mark order"
     for i, a in enumerate(ms):
         for j, b in enumerate(ms):
-            if i != j and a.eq(b):
+            if i != j and meq(a, b):
                 return "two equal marks"
             if i != j and a.type.excludes(b.type):
                 return "contains a mark together with one it excludes"
@@ -191,7 +201,7 @@ def run(ctx):
                 base_ref = list(ref)
                 if removing:
                     st, new = outcome(lambda: m.remove_from_set(list(base_ref)))
-                    exp = [o for o in base_ref if not o.eq(m)]
+                    exp = [o for o in base_ref if not meq(o, m)]
                     op = "removeFromSet"
                 else:
                     st, new = outcome(lambda: m.add_to_set(list(base_ref)))
@@ -209,7 +219,7 @@ def run(ctx):
                     ctx.violation(op + "-raises", f"{op} raised {new}", replay)
                     ref = exp
                     continue
-                if not Mark.same_set(new, exp):
+                if not msame(list(new), list(exp)):
                     replay["got"] = [[o.type.name, dict(o.attrs)] for o in new]
                     replay["expected"] = [[o.type.name, dict(o.attrs)] for o in exp]
                     ctx.violation(op, f"{op} does not follow the documented rule", replay)
@@ -221,7 +231,7 @@ def run(ctx):
                 metas.append((op, info, replay, info.marks(new)))
                 # membership / equality / type-level operations on the reference set
                 isin = m.is_in_set(base_ref)
-                if bool(isin) != any(o.eq(m) for o in base_ref):
+                if bool(isin) != any(meq(o, m) for o in base_ref):
                     ctx.violation("is_in_set", "is_in_set is not membership", replay)
                 reqs.append({"op": "isInSet", "mark": info.mark(m), "set": info.marks(base_ref)})
                 metas.append(("isInSet", info, replay, bool(isin)))
@@ -229,9 +239,12 @@ def run(ctx):
                 if other and rng.random() < 0.5:
                     other = other[:-1] if rng.random() < 0.5 else list(reversed(other))
                 same = Mark.same_set(base_ref, other)
-                want_same = len(base_ref) == len(other) and all(a.eq(b) for a, b in zip(base_ref, other))
+                want_same = msame(base_ref, other)
                 if bool(same) != want_same:
                     ctx.violation("same_set", "same_set is not element-wise equality", replay)
+                for o in base_ref[:2]:
+                    if bool(o.eq(m)) != meq(o, m):
+                        ctx.violation("eq", "Mark.eq is not 'same type and equal attributes'", dict(replay, other=[o.type.name, dict(o.attrs)]))
                 reqs.append({"op": "sameSet", "a": info.marks(base_ref), "b": info.marks(other)})
                 metas.append(("sameSet", info, replay, bool(same)))
                 t = m.type
